@@ -10,9 +10,9 @@ ID = 'C12'
 CHUNK = 1
 LEVEL = 'model_checking'
 RECHECK = 4   # cases are whole schedule explorations: fewer of them are re-executed for the determinism check
-RULE = ('the real AsyncRecordOnlyTapeCassette / AsyncRecording with Lock / Event / Thread replaced by scheduler-owned ones; workloads W1..W11 '
+RULE = ('the real AsyncRecordOnlyTapeCassette / AsyncRecording with Lock / Event / Thread replaced by scheduler-owned ones; workloads W1..W12 '
         '(1 producer; 1 producer two recordings; 2 producers a recording each; 2 producers writing one recording saved by the closer; 3 '
-        'producers one write each; nothing written; producer writing while another saves; W8 a recording aborted between two saved ones; W9 a burst of 1100 writes pending at close (default schedules only); W10/W11 close, close again, start again, record again) x every placement of ONE failing wrapped '
+        'producers one write each; nothing written; producer writing while another saves; W8 a recording aborted between two saved ones; W9 a burst of 1100 writes pending at close (default schedules only); W10/W11 close, close again, start again, record again; W12 two metadata writes on one recording) x every placement of ONE failing wrapped '
         'operation (and none) x flush-timer budget 0..2 x ALL interleavings of producers, closer and flusher up to the preemption bound '
         '(line granularity in the module, opcode granularity in every function that touches the operation buffer or its lock; storage '
         'calls are scheduling points). states = distinct (journal, final store) outcomes; transitions = scheduling points executed.')
@@ -70,6 +70,7 @@ WORKLOADS = {
     'W10': {'recs': 2, 'producers': [], 'closer': [('set', 0, 'a'), ('save', 0), ('close',), ('close',), ('start',), ('set', 1, 'b'), ('meta', 1, 'm'), ('save', 1)]},
     'W11': {'recs': 2, 'producers': [[('set', 0, 'a'), ('save', 0)]], 'closer': [('close',), ('start',), ('set', 1, 'b'), ('save', 1), ('close',), ('close',)]},
 }
+WORKLOADS['W12'] = {'recs': 1, 'producers': [[('meta', 0, 'm1'), ('set', 0, 'a'), ('meta', 0, 'm2'), ('save', 0)]], 'closer': []}   # two metadata writes on one recording
 CONTROL = ('abort', 'close', 'start')
 
 
@@ -85,7 +86,7 @@ def all_ops(w):
 PLAN_QUICK = [('W1', 0, 'all', 1, 1), ('W1', 1, 'all', 1, 2), ('W1', 2, 'none', 1, 4), ('W2', 0, 'all', 1, 1), ('W2', 1, 'all', 1, 2),
               ('W3', 0, 'all', 1, 4), ('W3', 1, 'none', 1, 12), ('W4', 0, 'all', 1, 4), ('W4', 1, 'none', 1, 12), ('W5', 0, 'none', 1, 24), ('W1', 0, 'none', 2, 8), ('W2', 0, 'none', 2, 12),
               ('W6', 0, 'all', 1, 1), ('W6', 1, 'all', 1, 1), ('W6', 2, 'all', 1, 1), ('W7', 0, 'all', 1, 4), ('W7', 1, 'none', 1, 12),
-              ('W8', 0, 'all', 1, 2), ('W8', 1, 'none', 1, 4), ('W9', 0, 'none', 0, 1), ('W10', 0, 'none', 1, 1), ('W10', 1, 'none', 1, 2), ('W11', 0, 'none', 1, 2), ('W11', 1, 'none', 1, 4)]
+              ('W8', 0, 'all', 1, 2), ('W8', 1, 'none', 1, 4), ('W9', 0, 'none', 0, 1), ('W10', 0, 'none', 1, 1), ('W10', 1, 'none', 1, 2), ('W11', 0, 'none', 1, 2), ('W11', 1, 'none', 1, 4), ('W12', 0, 'all', 1, 1), ('W12', 1, 'all', 1, 2)]
 PLAN_THOROUGH = [('W1', 0, 'all', 2, 4), ('W1', 1, 'all', 2, 16), ('W1', 2, 'none', 2, 32), ('W2', 0, 'all', 2, 8), ('W2', 1, 'none', 2, 32),
                  ('W3', 0, 'all', 2, 64), ('W4', 0, 'all', 2, 64), ('W7', 0, 'all', 2, 64),
                  # three preemptions on the one-producer workloads, two on everything else incl. the three-producer one
@@ -95,7 +96,7 @@ PLAN_THOROUGH = [('W1', 0, 'all', 2, 4), ('W1', 1, 'all', 2, 16), ('W1', 2, 'non
                  ('W4', 2, 'none', 1, 12), ('W5', 0, 'all', 1, 12), ('W5', 1, 'none', 1, 48), ('W6', 0, 'all', 2, 1), ('W6', 2, 'all', 2, 1),
                  ('W7', 0, 'all', 1, 2), ('W7', 1, 'all', 1, 6), ('W7', 2, 'none', 1, 12), ('W2', 2, 'all', 1, 2),
                  ('W8', 0, 'all', 2, 16), ('W8', 1, 'all', 1, 4), ('W8', 1, 'none', 2, 64), ('W9', 0, 'none', 0, 1), ('W9', 1, 'none', 0, 1),
-                 ('W10', 0, 'all', 2, 4), ('W10', 2, 'none', 2, 16), ('W11', 0, 'all', 2, 16), ('W11', 2, 'none', 2, 64)]
+                 ('W10', 0, 'all', 2, 4), ('W10', 2, 'none', 2, 16), ('W11', 0, 'all', 2, 16), ('W11', 2, 'none', 2, 64), ('W12', 0, 'all', 2, 4), ('W12', 1, 'all', 2, 16)]
 
 
 def plan(tier):
